@@ -57,13 +57,15 @@ def guarded(res, inp, what, fn, allow=()):
         return ('exc', type(e).__name__)
 
 
-def check_pattern(p, res, root, modes=('fn', 'glob'), is_bytes=False, light=False):
+def check_pattern(p, res, root, modes=('fn', 'glob'), is_bytes=False, light=False, only=None):
     pp = enc(p, is_bytes)
     for mode in modes:
         mod = G if mode == 'glob' else F
         flagsets = GL_FLAGS if mode == 'glob' else FN_FLAGS
         if light:
             flagsets = flagsets[:1] if light == 2 else flagsets[:3]
+        if only:
+            flagsets = [f for f in flagsets if f[0] in only]
         for fname, fl in flagsets:
             res.n['evaluations'] += 1
             inp = {'mode': mode, 'pattern': pp, 'flags': fname}
@@ -115,9 +117,12 @@ def check_walkers(p, res, root, is_bytes=False):
     r = enc(root, is_bytes)
     # an absolute piece would walk the machine's real root directory: keep the walkers inside the scratch tree
     rooted = re.search(r'(^|[|{,!(])/', p) is not None
+    enc_slash = re.search(r'\\(x2[fF]|0?57|u002[fF]|U0000002[fF]|N\{SOLIDUS\})', p) is not None
     for fname, fl in (GL_FLAGS[0], GL_FLAGS[2], GL_FLAGS[3], GL_FLAGS[6], GL_FLAGS[10]):
         if rooted:
             break
+        if enc_slash and 'R' in fname:
+            continue    # with RAWCHARS an encoded `/` is a separator too: the piece may be absolute
         res.n['evaluations'] += 1
         inp = {'mode': 'glob()', 'pattern': pp, 'flags': fname}
         allow = (SyntaxError, LookupError) if 'R' in fname else ()
@@ -269,7 +274,14 @@ def check_reversed_ranges(res, part, parts, maxitems):
 
 # ---------------------------------------------------------------- generators
 
-REGEXY = ['(', ')', '+', 'se[rver', 'sh(are', 'a+', 'b|c', '(?#)', '(?:', '(?i)', '\\Z', '$', '^', '{1,2}', '(?P<n>', '#', '(?=', '\\b', '&&', '~~', '||', '--', '[:alpha:]', '[.a.]',
+# escape shapes for RAWCHARS (complete, incomplete, out of range, unknown names, decoding to metacharacters)
+RAW_ITEMS = ['\\777', '\\400', '\\377', '\\0', '\\8', '\\x', '\\x4', '\\x41', '\\xzz', '\\u', '\\u004', '\\u0041', '\\U0000004',
+             '\\U00000041', '\\U00110000', '\\UFFFFFFFF', '\\N', '\\N{', '\\N{}', '\\N{LATIN SMALL LETTER A}', '\\N{latin small letter a}',
+             '\\N{NO SUCH}', '\\a', '\\\\', '\\\\x41', '\\x5c', '\\x2f', '\\57', '\\x5b', '\\x5d', '\\x7c', '\\x28', '\\x29', '\\x21',
+             '\\x7b', '\\x2a', '\\x2d', '\\x00', '\\xff', '\\ud800']
+RAW_TEMPLATES = ['%s', 'a%s', '%sa', '[%s]', '[!%s]', '@(%s)', '%s/a', 'a/%s', '[a-%s]', '[%s-z]', '{%s,a}', '%s|a', '!(%s)', '[[:alpha:]%s]',
+                 '%s%s']
+REGEXY = ['[\\/]', '[a\\/]', '[!\\/]', '[\\/', '(', ')', '+', 'se[rver', 'sh(are', 'a+', 'b|c', '(?#)', '(?:', '(?i)', '\\Z', '$', '^', '{1,2}', '(?P<n>', '#', '(?=', '\\b', '&&', '~~', '||', '--', '[:alpha:]', '[.a.]',
           '[=a=]', '\\', ']', '[', '-]', '^]', '!]', '\\]']
 TEMPLATES = ['[%s]', '[!%s]', 'a%s', '%s*', '@(%s)', '[a%s', '%s]', '[[:alpha:]%s]', '!(%s)', '{%s,a}', '[%sa-b]', '[a-%s]',
              '//%s/b/*', '//a/%s/*', '//?/%s/*', '//?/UNC/%s/b/*', 'c:/%s', '//h/s%s/x']
@@ -308,6 +320,8 @@ def plan(tier, seed):
     for sh in range(16):
         chunks.append(('mutations', sh, 16))
     chunks.append(('regexy',))
+    for part in range(4):
+        chunks.append(('rawesc', part, 4))
     chunks.append(('malformed',))
     for part in range(8):
         chunks.append(('revrange', part, 8, 3 if tier == 'quick' else 4))
@@ -363,6 +377,19 @@ def run_chunk(chunk):
                     check_pattern(t % r, res, root, is_bytes=True, light=True)
                     check_walkers(t % r, res, root)
             res.samples.append({'pattern': '[(?#)]'})
+        elif kind == 'rawesc':
+            k = 0
+            for t in RAW_TEMPLATES:
+                for r in RAW_ITEMS:
+                    k += 1
+                    if k % chunk[2] != chunk[1]:
+                        continue
+                    p = t.replace('%s', r)
+                    for isb in (False, True):
+                        check_pattern(p, res, root, is_bytes=isb, only=('ER', 'GER', 'E', 'GE'))
+                    check_walkers(p, res, root)
+                    check_walkers(p, res, root, is_bytes=True)
+            res.samples.append({'raw_escape': '[\\400-z]'})
         elif kind == 'malformed':
             check_malformed(res)
         elif kind == 'revrange':
